@@ -138,7 +138,20 @@ def step(rig, model, line, conf, i=0):
     # the server ends a session only after QUIT or a reply that announces it (421)
     if s.closed() != exp.closed and not (s.closed() and "421" in codes):
         problems.append({"kind": "session-ended" if s.closed() else "session-not-ended", "line": line, "codes": codes})
-    if not model.data:
+    # white-box extras (skipped silently if the attributes disappear in a refactor)
+    try:
+        conns = list(rig.server.connections.values())
+        if conns and not s.closed() and model.user is not None:
+            c = conns[0]
+            if "current_directory" in c and c["current_directory"].done():
+                if str(c.current_directory) != model.cwd:
+                    problems.append({"kind": "cwd-state", "line": line, "got": str(c.current_directory),
+                                     "expected": model.cwd})
+            has_rn = "rename_from" in c and c["rename_from"].done()
+            if has_rn != (model.rename_from is not None):
+                problems.append({"kind": "pending-rename-state", "line": line, "got": has_rn,
+                                 "expected": model.rename_from})
+    except AttributeError:
         pass
     return problems, obs
 
